@@ -111,4 +111,52 @@ def run (j : Json) : Except String Json := do
   pure (Json.mkObj [("results", Json.arr (r.2.map jsonOfOut).toArray),
                     ("chains", Json.mkObj (insts.map (fun p => (toString p, chains p))))])
 
+/-! ### extended histories: callees that call the protocol's methods themselves / ask for the dispatcher -/
+
+def nopOfJson (j : Json) : Except String NOp := do
+  let a ← j.getArr?
+  match ← a[0]!.getStr? with
+  | "create" => pure .create
+  | "dispatch" => pure (.dispatch (← kindOfStr (← a[1]!.getStr?)))
+  | _ => pure (.req (← ropOfJson j))
+
+def nscriptOfJson (j : Json) : Except String NScript := do
+  let ops ← (← (← field j "ops").getArr?).toList.mapM nopOfJson
+  let ret ← retOfStr (← (← field j "ret").getStr?)
+  pure ⟨ops, ret⟩
+
+def nbehOfJson (j : Json) : Except String NBeh := do
+  let rows ← (← j.getArr?).toList.mapM (fun row => do
+    let c ← calleeOfJson (← field row "callee")
+    let scripts ← (← (← field row "scripts").getArr?).toList.mapM nscriptOfJson
+    let d ← retOfStr (← (fieldD row "default" (Json.str "cont")).getStr?)
+    pure (c, scripts, d))
+  pure (fun c n =>
+    match rows.find? (fun r => r.1 == c) with
+    | some (_, scripts, d) => (scripts[n]?).getD ⟨[], d⟩
+    | none => ⟨[], .cont⟩)
+
+def jsonOfEv : Ev → Json
+  | .call e n => Json.arr #["call", jsonOfEntry e, toJson n]
+  | .req o r => Json.arr #["req", jsonOfROp o, strOfRes r]
+  | .created existed => Json.arr #["create", Json.arr #["created", existed]]
+  | .beginD k => Json.arr #["begin", strOfKind k]
+  | .endD k => Json.arr #["end", strOfKind k]
+  | .ret e r => Json.arr #["ret", jsonOfEntry e, strOfRet r]
+  | .outOfFuel k => Json.arr #["out-of-fuel", strOfKind k]
+
+def jsonOfOutN : OutN → Json
+  | .created existed => Json.arr #["created", existed]
+  | .res r => Json.str (strOfRes r)
+  | .events l => Json.arr (l.map jsonOfEv).toArray
+
+/-- same ops; scripts may also hold ["create"] and ["dispatch", kind]; a dispatch answers with its flat trace;
+    "fuel": bound on the nesting depth -/
+def runNested (j : Json) : Except String Json := do
+  let beh ← nbehOfJson (← field j "beh")
+  let ops ← (← (← field j "ops").getArr?).toList.mapM opOfJson
+  let fuel ← (fieldD j "fuel" (toJson (64 : Nat))).getNat?
+  let r := Disp.runN beh fuel DState.init ops
+  pure (Json.mkObj [("results", Json.arr (r.2.map jsonOfOutN).toArray)])
+
 end DispatcherDriver
